@@ -42,7 +42,7 @@ torch.set_num_threads(1)      # tiny tensors: threading only costs (and the mach
 def codes(t: torch.Tensor):
     """injective integer code of every float32 entry: the integer itself when integer valued, else 10^10 + bit pattern"""
     a = np.ascontiguousarray(t.detach().cpu().float().numpy()).ravel()
-    isint = (a == np.round(a)) & (np.abs(a) < 2 ** 24)
+    isint = (a == np.round(a)) & (np.abs(a) < 2 ** 24) & ~((a == 0) & np.signbit(a))      # -0.0 keeps its own code
     bits = a.view(np.uint32).astype(np.int64) + OFFSET
     return [int(v) if i else int(b) for v, i, b in zip(a, isint, bits)]
 
@@ -119,6 +119,22 @@ def sgd_like_step(m, seed):
 
 def all_eval(m):
     return not any(sub.training for sub in nn.Module.modules(m))
+
+
+EXTREME = [3.0e38, -3.0e38, 1.0e30, -1.0e30, 1.0e-40, -1.0e-40, 1.17549435e-38, -0.0, 0.0, 16777217.0, 0.1, -1e-7]
+
+
+def randomise_extreme(module, seed):
+    """extreme but legal float32 magnitudes (near overflow, denormal, signed zero): a copy must be bit-exact"""
+    g = torch.Generator().manual_seed(seed)
+    table = torch.tensor(EXTREME, dtype=torch.float32)
+    with torch.no_grad():
+        for p_ in module.parameters():
+            p_.copy_(table[torch.randint(0, len(EXTREME), p_.shape, generator=g)])
+
+
+def storage_ptrs(m):
+    return {t.data_ptr() for t in list(m.parameters()) + list(m.buffers()) if t.numel()}
 
 
 def canon(d):
@@ -295,7 +311,7 @@ class C04(vlib.Driver):
                     cases.append({"kind": "e2e", "block": blk, "seed": nseed, "ops": [["train"], ["mut", meth, args_for(meth, guard=True)], ["clone"]]}); nseed += 1
                 b1, g1, s1 = (rng.choice(methods) for _ in range(3))
                 cases.append({"kind": "e2e", "block": blk, "seed": nseed,
-                              "ops": [["bad", b1, bad_args(b1)], ["mut", g1, args_for(g1, effective=True)], ["step"], ["clone"],
+                              "ops": [["extreme"], ["bad", b1, bad_args(b1)], ["mut", g1, args_for(g1, effective=True)], ["mut", g1, args_for(g1, effective=True)], ["step"], ["clone"],
                                       ["sibling", s1, args_for(s1, effective=True)], ["clone"]]}); nseed += 1
                 continue
             for meth in methods:
@@ -322,6 +338,10 @@ class C04(vlib.Driver):
             cases.append({"kind": "e2e", "block": blk, "seed": nseed,
                           "ops": [["mut", u1, args_for(u1, effective=True)], ["step"], ["clone"], ["mut", u2, args_for(u2, guard=True)], ["rand"], ["clone"],
                                   ["step"], ["reinit"]]}); nseed += 1
+            # identical calls in a row (same method, same arguments; clone of a clone) and extreme but legal weight magnitudes
+            r1 = rng.choice(methods); ra = args_for(r1, effective=True)
+            cases.append({"kind": "e2e", "block": blk, "seed": nseed,
+                          "ops": [["extreme"], ["mut", r1, ra], ["mut", r1, dict(ra)], ["clone"], ["clone"], ["mut", r1, dict(ra)], ["extreme"], ["clone"], ["reinit"], ["reinit"]]}); nseed += 1
             # siblings: clone the parent, mutate the clone (every method), clone the parent again
             sib = [["sibling", meth, args_for(meth, effective=True)] for meth in methods]
             cases.append({"kind": "e2e", "block": blk, "seed": nseed, "ops": [["train"]] + sib + [["clone"], ["reinit"]]}); nseed += 1
@@ -433,6 +453,7 @@ class C04(vlib.Driver):
                 try:
                     sib = m.clone()
                     getattr(sib, op[1])(**op[2])
+                    sgd_like_step(sib, 6500 + case["seed"] * 131 + oi)       # "train" the sibling in place
                     rec["sibling"] = str(sib.last_mutation_attr)
                     del sib
                 except Exception as e:
@@ -451,12 +472,19 @@ class C04(vlib.Driver):
                 try:
                     if op[0] == "recreate":
                         m.recreate_network()
-                    elif op[0] == "clone":
-                        m = m.clone()
                     else:
-                        if mut is None:
-                            mut = Mutations(0, 1, 0.5, 0, 0, 0)
-                        m = mut.reinit_from_mutated(m)
+                        parent = m
+                        if op[0] == "clone":
+                            m = parent.clone()
+                        else:
+                            if mut is None:
+                                mut = Mutations(0, 1, 0.5, 0, 0, 0)
+                            m = mut.reinit_from_mutated(parent)
+                        # arguments are not modified, and the copy is independent of the original
+                        rec["parent_intact"] = (snap(parent) == p_b and canon(parent.init_dict) == arch_b and ties(parent) == ties_b
+                                                and structure(parent) == struct_b)
+                        rec["shares_storage"] = bool(storage_ptrs(parent) & storage_ptrs(m))
+                        del parent
                 except Exception as e:
                     rec["raised"] = f"{type(e).__name__}: {str(e)[:200]}"
                     rec["raised_in"] = [op[0]]
@@ -466,6 +494,8 @@ class C04(vlib.Driver):
                 randomise(m, 5000 + case["seed"] * 131 + oi)
             elif op[0] == "step":
                 sgd_like_step(m, 6000 + case["seed"] * 131 + oi)
+            elif op[0] == "extreme":
+                randomise_extreme(m, 6800 + case["seed"] * 131 + oi)
             elif op[0] == "train":
                 B.train_forward(m, x)
             else:
@@ -782,7 +812,13 @@ class C04(vlib.Driver):
                             out.append(Violation("same-arch-output", f"e2e:same-arch-output:{blk}",
                                                  f"{where}: init_dict, parameters and buffers unchanged but outputs differ by {rec['out_maxdiff']}"))
             elif op[0] in ("clone", "reinit"):
-                if not rec["params_equal"]:
+                if not rec.get("parent_intact", True):
+                    out.append(Violation("argument-modified", f"e2e:{op[0]}-modified-original:{blk}",
+                                         f"{where}: {op[0]} changed the module it was given (parameters, buffers, init_dict, tying or structure)"))
+                elif rec.get("shares_storage"):
+                    out.append(Violation("copy-aliases-original", f"e2e:{op[0]}-aliases-original:{blk}",
+                                         f"{where}: the copy shares tensor storage with the original: training one changes the other"))
+                elif not rec["params_equal"]:
                     out.append(Violation(f"{op[0]}-params", f"e2e:{op[0]}-params:{blk}", f"{where}: parameters of the copy differ from the original"))
                 elif op[0] == "clone" and rec["out_equal"] and not rec["asis_equal"]:
                     out.append(Violation("eval-mode-lost", f"e2e:eval-mode-lost:clone:{blk}",
